@@ -176,11 +176,20 @@ func (s *scen) teardown() {
 // send starts a synchronous W-bit send in the background and waits until the peer has the primary.
 func (s *scen) send(id int64, ctx context.Context, w bool) (sc.Frame, chan string, error) {
 	done := make(chan string, 1)
+	var gate chan struct{}
+	if !w {
+		// no reply wait: order the peer's "V" before the caller's "R" (see Env.RetGate)
+		gate = make(chan struct{})
+		s.e.RetGate = gate
+	}
 	go func() {
 		res, _ := s.e.SyncSend(ctx, id, 1, 1, w)
 		done <- res
 	}()
 	prim, ok := s.p.Wait(3*time.Second, sc.IsData, nil)
+	if gate != nil {
+		close(gate)
+	}
 	if !ok {
 		return prim, done, fmt.Errorf("peer did not receive the primary")
 	}
